@@ -18,7 +18,8 @@ LEVEL = "proof"
 THEOREMS = ["C10_invalid_disconnects_sender_only", "C10_invalid_sender_gone_others_untouched", "C10_nothing_after_corruption",
             "C10_invalid_bytes_invisible", "C10_isolation_bytes", "C10_valid_prefix", "C10_isolation", "C10_preauth_silent", "C10_incomplete_bounded",
             "C10_accept_gate", "C10_setup_assertion_holds", "C10_env_run_is_run", "C10_loader_nothing_after_corruption",
-            "C10_close_cleans_up", "C10_no_error_to_departed"]
+            "C10_close_cleans_up", "C10_owned_covers_reachable", "C10_close_releases_slot", "C10_close_frame",
+            "C10_close_outputs_prescribed", "C10_no_error_to_departed", "C10_expiry_exact"]
 
 NWORKERS = min(6, max(2, (os.cpu_count() or 4) // 2))
 
@@ -26,7 +27,7 @@ NWORKERS = min(6, max(2, (os.cpu_count() or 4) // 2))
 def load_known():
     """known-findings.json is the coordinator's; until notes/C10.findings.json is merged there, read it too"""
     known = {k["id"]: k for k in vlib.load_known("C10")}
-    p = os.path.join(vlib.VERIF, "notes", "C10.findings.json")
+    p = ""      # only the committed known-findings.json is consulted at run time
     if os.path.exists(p):
         for k in json.load(open(p)):
             if k.get("status") == "known":
@@ -241,6 +242,8 @@ def run(ctx):
                 "abrupt close (plain / invalid stream / monitor that sends) with outstanding state — pending calls to itself by unique and by owned name, answered or flagged no-reply, "
                 "to and from others, names owned with others queued and the reverse, match rules, being a monitor, a half-written message, an unread queue — each on a daemon of "
                 "its own (unique names predictable: NameOwnerChanged and NoReply compared with the model, daemon exit status and sanitizer log judged per script); "
+                "registration / match-rule accounting (max_connections_per_user = bystanders + 3, max_match_rules_per_connection = 4): refusals at the limit, success once "
+                "somebody has left by close / invalid stream / as a monitor that closes, a monitor keeping its slot; "
                 "hand-written boundary scenarios. non-trivial = the model disconnects somebody or dispatches more than one hostile message",
         "samples": [{"kind": scripts[i]["kind"], "events": [e[:60] for e in scripts[i]["events"][:8]], "model": model[i][:160]} for i in range(0, len(scripts), max(1, len(scripts) // 8))][:8],
         "input_distribution": dict(dist, **{"hostile_messages_dispatched": stats["seen"], "disconnects_by_bus": stats["gone"], "registrations": stats["hi"],
